@@ -74,7 +74,7 @@ package handlers
 // RecordCtx retains the request fields named by keys; those must not be secret-bearing
 // fields of the request (same table as tq.Request.Fields).
 //@ interface cmds/server/handlers.recorderWriter.RecordCtx(w, request, keys)
-//@   requires[C18] request != nil
+//@   requires request != nil
 //@   requires[C18] taintkind(request.Body, 1) ==> nolit(keys, "data")
 //@   requires[C18] taintkind(request.Body, 2) ==> nolit(keys, "user", "port", "rem-addr", "data", "user-msg")
 
